@@ -22,6 +22,43 @@ CHECKS = {
    text="spec/Cross.tla and Reversal.tla give the detectors as coded (last-delta sign; window + saturating/rebased PeriodType position counters) and definitionally (sign change rule; pivot of the surrounding left+right+1 elements with the documented tie rule). TLC checks impl = definition on every pair of streams (cross, incl. touches, repeated zeros, -0.0, antisymmetry) and, for the reversal detectors, on every stream of ANY length with PMAX scaled to 7 (quick) and 15 (thorough), i.e. far beyond saturation of the position counter. Binding: all streams up to depth 8/11 replayed on the real detectors under nine embeddings; recorded streams of 700-3000 inputs (all (left,right) classes incl. 1/252) validated against the definition by TLC.",
    design_ref="DESIGN.md 5/C14",
    note="Reversal programs start with the construction value as first input (Method::new's contract). The scaled-down PMAX model is tied to the real u8 counters by the long recorded streams."),
+
+ "C02": dict(
+   technique="TLA+ trace validation: the documented formulas are evaluated from scratch by TLC in exact fixed-point arithmetic (pure-TLA+ big numbers) at every step of recorded executions of the real methods",
+   category="model_checking",
+   text="spec/Linear.tla defines all 19 finite-window methods as formulas over the last n inputs in exact 24-decimal fixed point (Big.tla). The harness drives the real methods with regime-shaped float streams (plateaus, zeros, sign changes, spikes, scale jumps, monotone runs; lengths 1..254; Conv weight vectors; prices also scaled by 2^e, e in {-70..100}, to expose absolute constants) and logs every call; Trace_Num replays each event, recomputes the definition from the spec's own copy of the history and accepts only if the output is within the two-sided rounding allowance of DESIGN section 4; peek = last output.",
+   design_ref="DESIGN.md 5/C02",
+   note="Trusts TLC, Big.tla (self-tested against Python integers with and without the BigInteger module override used to accelerate it), float->fixed-point conversion (Rust's exact decimal formatting). Sampled streams, not exhaustive; the allowance constants are those of DESIGN section 4."),
+ "C03": dict(
+   technique="TLA+ trace validation: documented recurrences carried by TLC in exact fixed point along recorded executions",
+   category="model_checking",
+   text="spec/Recursive.tla states EMA/DMA/TMA/DEMA/TEMA/RMA/WSMA/TSI/Vidya/TR/HeikinAshi and the windowless Integral/ADI as recurrences; Trace_Num carries the recurrence state from construction in 24-decimal fixed point and checks every recorded output of the real methods against it within the allowance (quotient rule for TSI/Vidya, guarded branches exact), for lengths 1..254 (1..127 WSMA, (short,long) pairs), streams with flat-after-movement stretches and scale changes.",
+   design_ref="DESIGN.md 5/C03",
+   note="As C02. Vidya's allowance follows the quotient rule (its factor is a ratio of running sums)."),
+ "C09": dict(
+   technique="TLA+ protocol specification of the Method/Sequence API over handles (TLC: exhaustive small programs + simulation), programs replayed on every method through the real generic API and compared bit for bit with element-wise next",
+   category="model_checking",
+   text="spec/Api.tla: a handle's abstract state is the number of inputs consumed; every call form (next, over, call, apply, new_over, new_apply, into_fn/new_fn, with_history{next,get,iter}, with_last_value{next,peek}, peek, clone, snapshot) must return the slice ys[c+1..c+k] of ONE reference run and advance c by k; independence of handles is an action property checked by TLC. TLC enumerates every program of <= 4 operations (3 handles, chunks 0..2) and simulates longer ones; the harness replays them on 47 method subjects (29 through the real generic wrappers), bit-exact.",
+   design_ref="DESIGN.md 5/C09",
+   note="Indicator-level over/init_fn are covered by C11's static-vs-dyn replay. Pair/candle-input methods run bulk operations element-wise (their generic bulk API does not exist for unsized inputs)."),
+ "C10": dict(
+   technique="TLA+ model of every constructor's pre-validation arithmetic evaluated by TLC on all parameter values (complete tables), replayed on the real constructors; accepted instances soaked",
+   category="model_checking",
+   text="spec/Params.tla models each method constructor and MA::init as coded (PeriodType arithmetic with overflow, Window::new's debug assertion, guards, nested constructors in evaluation order) with outcome ok/err/panic. TLC evaluates all 256 lengths (all 65536 pairs for two-parameter constructors, out-of-range counts) and prints the table; the harness calls the real constructors on the same complete sets in the dev profile and compares outcome classes, checks non-finite construction values, and runs every accepted instance for 700/3000 steps. Parameter values on which the model (and the code) panics are reported per constructor.",
+   design_ref="DESIGN.md 5/C10",
+   note="Indicator validate/init tables are part of C11's replay; text parsing is covered by C18's grammar model."),
+ "C13": dict(
+   technique="TLA+ model checking (Window Serialize/Deserialize in every phase, SMM restore in every reachable state) + Api.tla snapshot programs and restore-before-every-call replays on TLC-enumerated streams, bit-exact",
+   category="model_checking",
+   text="Window.tla's Deserialize (validation, empty window) and Selection.tla's SmmRestore (slice rebuilt by sorting) are model-checked: a restored instance reads/continues like the original in every reachable state. Binding: Api.tla programs with snapshot/clone at every position replayed on all 47 method subjects through serde_json (lossless floats), original and restored futures bit-identical; every TLC-enumerated token stream replayed with the instance replaced by its restored snapshot before every call (signed zeros, ties); recorded Window programs with adversarial (buf,index) documents validated by Trace_Window (Err, never panic).",
+   design_ref="DESIGN.md 5/C13",
+   note="serde_json with float_roundtrip is the carrier; indicator instances/configs are added with the indicator registry."),
+ "C16": dict(
+   technique="TLA+ specification of the Action algebra checked completely by TLC (513 actions, 263169 pairs, edge triples, From<f64> grid) with the complete tables replayed on the real type",
+   category="model_checking",
+   text="spec/Action.tla gives every conversion and operator as coded and the ratio algebra as laws; TLC checks all actions/pairs/triples and the From<f64> step function on every k/1020; laws the as-coded model violates are listed pair by pair and confirmed on the real type before being reported. TLC prints, per action, neg/ratio/analog/sign and the Sub/Eq/Cmp rows against all 513 actions, and the From<f64>/<f32> grid; the harness evaluates the same complete tables on the real type.",
+   design_ref="DESIGN.md 5/C16",
+   note="All 2^32 f32 patterns are swept in the thorough tier by the harness and summarised as intervals validated against the rational break points."),
 }
 
 NOT_YET = {
